@@ -68,7 +68,8 @@ Definition hl_init : hashlin :=
   let bm := 2 ^ bit0 in
   mkH bit0 bm (bm - 1) bm (bm - 1) 0 0 ST_STABLE (repeat [] (Z.to_nat bm)).
 
-(* *tommy_hashlin_pos(hashlin, pos) *)
+(* *tommy_hashlin_pos(hashlin, pos); the default [] is never reached for a position computed by
+   bucket_pos under the invariant (SpkiProofs.shape_pos_range) *)
 Definition get_bucket (h : hashlin) (pos : Z) : list node := nth (Z.to_nat pos) (buckets h) [].
 
 (* the position computed by tommy_hashlin_bucket_ref *)
